@@ -146,7 +146,19 @@ psgstrf_thread_init(SuperMatrix *A, SuperMatrix *L, SuperMatrix *U,
 
     /* Allocate global storage common to all the factor routines */
     *info = psgstrf_MemInit(n, Astore->nnz, options, L, U, &Glu);
-    if ( *info ) return NULL;
+    if ( *info ) {
+	/* Workspace query or lack of memory: no factorization follows, so
+	   release what has been set up for it. */
+	extern ExpHeader *sexpanders;
+	ParallelFinalize(pxgstrf_shared);
+	SUPERLU_FREE(inv_perm_r);
+	SUPERLU_FREE(inv_perm_c);
+	SUPERLU_FREE(xprune);
+	SUPERLU_FREE(ispruned);
+	SUPERLU_FREE(sexpanders);
+	sexpanders = 0;
+	return NULL;
+    }
 
     /* Prepare arguments to all threads. */
     psgstrf_threadarg = (psgstrf_threadarg_t *) 
